@@ -40,7 +40,11 @@ def replay_corpus(prop: str, mod, rep) -> None:
             n += 1
             try:
                 res = mod.replay(doc["case"])
-            except Exception as e:  # a corpus case the current predicate cannot evaluate is a harness problem
+            except Exception as e:  # a corpus case the current predicate cannot evaluate is a harness problem ...
+                if rep.failures:  # ... unless the search has already established a violation (e.g. calls that never return
+                    # also stall the replay of saved schedules): report that violation rather than masking it
+                    rep.extra["corpus_cases_not_replayable"] = rep.extra.get("corpus_cases_not_replayable", 0) + 1
+                    continue
                 raise HarnessError(f"corpus case {p} cannot be replayed: {e!r}") from None
             for sig, msg in res or []:
                 rep.add_failure(Failure("corpus:" + sig, f"[{p.name}] {msg}", doc["case"], len(msg)))
